@@ -184,20 +184,28 @@ type Enumerator interface {
 // Bubble runs f as the root goroutine of a fresh synctest bubble and swallows the
 // end-of-bubble deadlock panic caused by tasks that are still parked when f returns.
 func Bubble(t *testing.T, f func()) (panicked any) {
-	done := false
-	defer func() {
-		if r := recover(); r != nil {
-			if done && strings.Contains(fmt.Sprint(r), "deadlock") {
-				return
+	// A sub-test per bubble: when the race detector fires inside a bubble, synctest.Test
+	// ends the *calling test* with FailNow; with a sub-test only that sub-test ends and the
+	// batch goes on (the report itself is collected from the race log by the driver).
+	ok := t.Run("b", func(st *testing.T) {
+		done := false
+		defer func() {
+			if r := recover(); r != nil {
+				if done && strings.Contains(fmt.Sprint(r), "deadlock") {
+					return
+				}
+				panicked = fmt.Sprintf("%v\n%s", r, debug.Stack())
 			}
-			panicked = fmt.Sprintf("%v\n%s", r, debug.Stack())
-		}
-	}()
-	synctest.Test(t, func(*testing.T) {
-		f()
-		done = true
+		}()
+		synctest.Test(st, func(*testing.T) {
+			f()
+			done = true
+		})
 	})
-	return nil
+	if !ok && panicked == nil && sim.RaceEnabled {
+		bubbleRaced = true // the only other way for the sub-test to fail
+	}
+	return panicked
 }
 
 var signalOnce bool
@@ -271,7 +279,7 @@ func Main(t *testing.T, e Engine) {
 	// seed-independent warm-up: first execution in a process differs (lazy initialisation)
 	warm := e.Generate(0x5EED0FF, tier)
 	warm.SchedSeed = 1
-	e.Execute(t, warm, false)
+	execute(e, t, warm, false)
 
 	switch mode {
 	case "batch", "hashes":
@@ -301,7 +309,7 @@ func Main(t *testing.T, e Engine) {
 			} else {
 				c = e.Generate(seed, tier)
 			}
-			o := e.Execute(t, c, false)
+			o := execute(e, t, c, false)
 			s.Runs++
 			if o.HarnessError != "" {
 				s.HarnessError = fmt.Sprintf("seed %d: %s", seed, o.HarnessError)
@@ -358,11 +366,11 @@ func Main(t *testing.T, e Engine) {
 	case "trace": // debugging aid: full log of the run generated from one run seed
 		seed, _ := strconv.ParseUint(os.Getenv("VERIF_RUNSEED"), 10, 64)
 		c := e.Generate(seed, tier)
-		o := e.Execute(t, c, true)
+		o := execute(e, t, c, true)
 		write(map[string]any{"case": c, "outcome": o})
 	case "replay":
 		c := loadCase(t, os.Getenv("VERIF_CASE"))
-		o := e.Execute(t, c, true)
+		o := execute(e, t, c, true)
 		write(o)
 	case "shrink":
 		c := loadCase(t, os.Getenv("VERIF_CASE"))
@@ -394,7 +402,7 @@ func Shrink(t *testing.T, e Engine, c *Case, maxExec int) *Case {
 			return nil, false
 		}
 		execs++
-		o := e.Execute(t, x, false)
+		o := execute(e, t, x, false)
 		return o, o.HarnessError == "" && o.Violation == want
 	}
 	best := c.Clone()
@@ -457,7 +465,7 @@ func Shrink(t *testing.T, e Engine, c *Case, maxExec int) *Case {
 		})
 	}
 	// final: re-run with the log kept
-	o := e.Execute(t, best, true)
+	o := execute(e, t, best, true)
 	best.Violation, best.Detail, best.Log = o.Violation, o.Detail, o.Log
 	best.Note = fmt.Sprintf("minimised with %d executions", execs)
 	if len(best.Log) > 400 {
